@@ -168,6 +168,16 @@ Definition prune {P} (q : option qbox) (active : string) (pb : colbounds) (piece
   | _, _ => Some (pb, pieces)
   end.
 
+(* the last step of _perform_read_parquet_dask:
+     if partition_bounds and delayed_partitions: result._partition_bounds = partition_bounds
+   (when no partition is selected the result is one empty stand-in partition and
+   no bounds are attached to it) *)
+Definition expose {P} (pb : colbounds) (kept : list P) : colbounds :=
+  match pb, kept with
+  | _ :: _, _ :: _ => pb
+  | _, _ => []
+  end.
+
 (* ---- pack_partitions_to_parquet: which file holds which output partition,
         and which bounds row describes it ----
    write_info[k] is None for an output partition without rows, else the
@@ -218,5 +228,9 @@ Definition read_bounds (ds : list (option (list (string * bounds_json))))
   : option (colbounds * list nat) :=
   match load_datasets ds with
   | None => None
-  | Some pb => prune q active pb (seq 0 npieces)
+  | Some pb =>
+      match prune q active pb (seq 0 npieces) with
+      | None => None
+      | Some (pb', kept) => Some (expose pb' kept, kept)
+      end
   end.
